@@ -524,12 +524,20 @@ func c04AlgValues() []rc.Val {
 		out = append(out, rc.Uint(u))
 	}
 	out = append(out, rc.Text("ES256"), rc.Text(""), rc.Bytes([]byte{1}), rc.Float(1.5), rc.Bool(true), rc.Null, rc.Array(rc.Int(-7)))
+	// text that spells the signer's algorithm id, held as a plain string, as json.Number and as a named string type
+	// (all emitted as text: no integer alg), and the id itself held as a named integer type
+	for _, a := range []string{"-7", "-8", "-37", "7"} {
+		out = append(out, rc.Text(a), rc.Val{K: rc.KText, B: rc.Hex(a), Sp: rc.SpJSONNumber}, rc.Val{K: rc.KText, B: rc.Hex(a), Sp: rc.SpNamedString})
+	}
+	for _, a := range []int64{-7, -8, 7} {
+		out = append(out, rc.IntSp(a, rc.SpNamedInt))
+	}
 	return out
 }
 
 func valueSpellings(v rc.Val) []uint8 {
-	if v.K != rc.KInt {
-		return []uint8{0}
+	if v.K != rc.KInt || v.Sp == rc.SpNamedInt {
+		return []uint8{v.Sp}
 	}
 	i, _ := v.Int64()
 	var out []uint8
